@@ -7,13 +7,19 @@ from ..esp import UNKNOWN, NEW, OLD, SELF, run_function, val_str, valuations
 from ..model import Repo, norm
 from .common import dispatch_ops, op_table, table_stats, trace_str
 
-SHALLOW = {"list", "tuple", "dict", "set", "frozenset", "iter", "reversed", "sorted", "copy.copy", "copy", "enumerate", "zip"}
 MUTATORS = {"append", "add", "insert", "extend", "update", "setdefault", "appendleft", "push"}
 
 
+NONALIAS_CALLS = {"len", "repr", "str", "int", "float", "bool", "bytes", "hash", "id", "type", "isinstance", "issubclass", "callable", "hasattr", "any", "all", "sum", "ord", "chr", "format", "code_repr", "value_to_token"}
+NONALIAS_METHODS = {"deepcopy", "encode", "decode", "format", "join", "keys", "count", "index", "startswith", "endswith", "to_set", "lookup_all", "__repr__", "hexdigest", "_value_to_code", "_token_to_code", "_token_of_node"}
+KEYED_METHODS = {"get", "pop", "setdefault"}
+
+
 def aliases_param(t):
-    """Parameter names that tag t may *directly* alias (copy propagation, container
-    construction, attribute/element access, shallow copies) - not through opaque calls."""
+    """Parameter names that tag t may alias: copy propagation, container construction,
+    attribute/element access, and the *arguments* of calls (a function may return or
+    keep its argument: min(a, b), list(x), Wrapper(x)) - but not the receiver of a
+    method call, lookup keys, comparison results, or known non-aliasing calls."""
     if not isinstance(t, tuple) or not t:
         return []
     k = t[0]
@@ -23,14 +29,21 @@ def aliases_param(t):
         return [x for e in t[1] for x in aliases_param(e)]
     if k == "comp":
         return [x for e in t[2] for x in aliases_param(e)]
-    if k in ("star", "elem", "with"):
-        return aliases_param(t[1])
+    if k in ("star", "elem", "with", "yielded"):
+        return aliases_param(t[1]) if len(t) > 1 else []
     if k in ("attr", "item", "unpack"):
         return aliases_param(t[1])
-    if k == "call" and t[1] in SHALLOW:
+    if k == "call":
+        if t[1].split(".")[-1] in NONALIAS_CALLS or t[1].endswith("deepcopy"):
+            return []
+        return [x for e in t[2] for x in aliases_param(e)] + [x for _, e in (t[3] if len(t) > 3 else ()) for x in aliases_param(e)]
+    if k == "mcall":
+        if t[2] in NONALIAS_METHODS:
+            return []
+        args = t[3][1:] if t[2] in KEYED_METHODS else t[3]
+        return [x for e in args for x in aliases_param(e)] + [x for _, e in (t[4] if len(t) > 4 else ()) for x in aliases_param(e)]
+    if k == "new":
         return [x for e in t[2] for x in aliases_param(e)]
-    if k == "mcall" and t[2] in ("copy",):
-        return aliases_param(t[1])
     return []
 
 
